@@ -270,20 +270,29 @@ Definition wval_q (w : wval) : Q := match w with WInt z => inject_Z z | WFloat q
 
 (* "=": dtypeutils.ConvertToSameType(left, right) then Go's == on the two interfaces:
    same type -> compared directly; int64 vs float64 -> the left side is converted to the
-   right side's type.  A float on the left that does not convert to int64:
-       leftType, err = ConvertExpToType(leftType, rightType)   // returns (int64(0), err)
-   overwrites the left value with 0 before the error is looked at; then both sides are
-   printed: "0" against the literal's text — equal exactly when the literal is 0. *)
+   right side's type.  A float on the left that does not convert to int64 keeps its value
+   and both sides are printed: the text of a value that is not an int64 ("2.5", "1e+19")
+   against the decimal text of an int64 — never equal. *)
 Definition where_eqb (l r : wval) : bool :=
   match l, r with
   | WInt a, WInt b => a =? b
   | WFloat a, WFloat b => Qeqb a b
   | WInt a, WFloat b => Qeqb (inject_Z a) b
+  | WFloat _, WInt _ => false
+  end.
+
+(* PRE-FIX (no longer the code): the failed conversion
+       leftType, err = ConvertExpToType(leftType, rightType)   // returned (int64(0), err)
+   overwrote the left value with 0 before the error was looked at; both sides were then
+   printed: "0" against the literal's text — equal exactly when the literal is 0. *)
+Definition where_eqb_prefix (l r : wval) : bool :=
+  match l, r with
   | WFloat _, WInt b => b =? 0
+  | _, _ => where_eqb l r
   end.
 
 (* None: the field is NULL for this row or not numeric (not modelled) *)
-Definition where_cmp (o : cop) (st : stored) (n : numlit) : option bool :=
+Definition where_cmp_gen (eqb : wval -> wval -> bool) (o : cop) (st : stored) (n : numlit) : option bool :=
   match st with
   | SAbsent => Some false                        (* NULL operand: the row is dropped *)
   | SInt _ | SUint _ | SFloat _ =>
@@ -291,7 +300,7 @@ Definition where_cmp (o : cop) (st : stored) (n : numlit) : option bool :=
       | Some v =>
           let l := w_number v in let r := w_number (numlit_val n) in
           Some match o with
-               | Eq => where_eqb l r | Ne => negb (where_eqb l r)
+               | Eq => eqb l r | Ne => negb (eqb l r)
                | Lt => Qltb (wval_q l) (wval_q r) | Le => Qleb (wval_q l) (wval_q r)  (* CompareValues: both as float64 *)
                | Gt => Qltb (wval_q r) (wval_q l) | Ge => Qleb (wval_q r) (wval_q l)
                end
@@ -299,9 +308,11 @@ Definition where_cmp (o : cop) (st : stored) (n : numlit) : option bool :=
       end
   | _ => None
   end.
+Definition where_cmp := where_cmp_gen where_eqb.
+Definition where_cmp_prefix := where_cmp_gen where_eqb_prefix.
 
-(* where the where stage is claimed to compare by value *)
-Definition where_guard (o : cop) (st : stored) (n : numlit) : bool :=
+(* where the PRE-FIX where stage compared by value *)
+Definition where_prefix_guard (o : cop) (st : stored) (n : numlit) : bool :=
   match o, stored_num st with
   | (Eq | Ne), Some v =>
       match w_number v with WInt _ => true | WFloat _ => negb (Qeqb (numlit_val n) 0) end
